@@ -39,17 +39,18 @@ import (
 // nil interface: calling one is a stub gap (nil dereference -> infrastructure failure, never a verdict).
 type SimComet struct {
 	cmtrpcclient.Client
-	mu        sync.Mutex
-	node      *Node
-	recs      map[int64]*BlockRecord
-	byHash    map[string]int64
-	head      int64
-	subs      map[string]chan coretypes.ResultEvent
-	FailFetch int // the next n Block / BlockResults calls fail
-	Fetches   int
-	Failed    int
-	maxResults int64 // highest height whose results were served
-	consParams func() *cmtproto.ConsensusParams
+	mu          sync.Mutex
+	node        *Node
+	recs        map[int64]*BlockRecord
+	byHash      map[string]int64
+	head        int64
+	subs        map[string]chan coretypes.ResultEvent
+	FailFetch   int // the next n Block / BlockResults calls fail
+	FailResults int // the next n BlockResults calls fail (the block itself can be fetched)
+	Fetches     int
+	Failed      int
+	maxResults  int64 // highest height whose results were served
+	consParams  func() *cmtproto.ConsensusParams
 }
 
 func NewSimComet(n *Node) *SimComet {
@@ -133,6 +134,14 @@ func (c *SimComet) BlockByHash(_ context.Context, hash []byte) (*coretypes.Resul
 }
 
 func (c *SimComet) BlockResults(_ context.Context, h *int64) (*coretypes.ResultBlockResults, error) {
+	c.mu.Lock()
+	if c.FailResults > 0 {
+		c.FailResults--
+		c.Failed++
+		c.mu.Unlock()
+		return nil, errors.New("simulated rpc failure (block results)")
+	}
+	c.mu.Unlock()
 	r, err := c.rec(h)
 	if err != nil {
 		return nil, err
@@ -222,20 +231,20 @@ func (c *SimComet) Validators(_ context.Context, h *int64, _, _ *int) (*coretype
 
 // C14State is the per-run state of the indexer arm.
 type C14State struct {
-	Comet    *SimComet
-	Disk     *SimDisk
-	DB       *SimDB
-	Idx      *indexer.KVIndexer
-	Svc      *evmserver.EVMIndexerService
-	StartHead int64 // chain height when the current incarnation started
-	FirstH   int64 // chain height when the service was first started (an uninterrupted run indexes FirstH+1 ..)
-	Started  bool
-	Kills    int
+	Comet       *SimComet
+	Disk        *SimDisk
+	DB          *SimDB
+	Idx         *indexer.KVIndexer
+	Svc         *evmserver.EVMIndexerService
+	StartHead   int64 // chain height when the current incarnation started
+	FirstH      int64 // chain height when the service was first started (an uninterrupted run indexes FirstH+1 ..)
+	Started     bool
+	Kills       int
 	SkippedUpTo int64
-	EmptyRes bool // a restart found the index empty although blocks with Ethereum txs had been offered before
-	Offered  bool
-	Faults   int
-	cctx     client.Context
+	EmptyRes    bool // a restart found the index empty although blocks with Ethereum txs had been offered before
+	Offered     bool
+	Faults      int
+	cctx        client.Context
 }
 
 func (w *World) c14() *C14State {
@@ -347,7 +356,11 @@ func opIdx(w *World, op *Op) {
 		}
 	case "fetchfail":
 		st.Comet.mu.Lock()
-		st.Comet.FailFetch += 1 + op.Ref
+		if op.Note == "results" {
+			st.Comet.FailResults += 1 + op.Ref%2
+		} else {
+			st.Comet.FailFetch += 1 + op.Ref
+		}
 		st.Comet.mu.Unlock()
 		r.Count("f:indexer_fetch_errors_armed")
 	case "settle":
@@ -445,7 +458,7 @@ func c14Finish(w *World) {
 	}
 	r.At(w.C.Height, -1)
 	st.Comet.mu.Lock()
-	st.Comet.FailFetch = 0
+	st.Comet.FailFetch, st.Comet.FailResults = 0, 0
 	fetchFaults := st.Comet.Failed
 	st.Comet.mu.Unlock()
 	// faults stop here: armed kills are disarmed, a dead service is restarted, the chain idles
@@ -469,7 +482,7 @@ func c14Finish(w *World) {
 	got, want := DumpDB(st.DB), DumpDB(twinDB)
 	if ok, why := sameKVs(want, got); !ok {
 		switch {
-		case fetchFaults > 0:
+		case fetchFaults > 0 && !st.EmptyRes:
 			// relaxation: under injected fetch errors a block may be missing, never wrong
 			wrong := false
 			wm := map[string][]byte{}
@@ -801,8 +814,18 @@ func genC14(rng *rand.Rand, seed uint64, tier string) *Script {
 				ops = append(ops, Op{K: "idx", Mut: "settle"})
 			}
 		case "fetch":
+			if rng.IntN(10) == 0 {
+				// the service is down for a few blocks, comes back and has to catch up while the results of one of the
+				// blocks cannot be fetched at the first attempt
+				ops = append(ops, Op{K: "idx", Mut: "killnow"})
+				for i, n := 0, 2+rng.IntN(3); i < n; i++ {
+					w := rng.IntN(g.Wallets)
+					ops = append(ops, Op{K: "eth", W: w, To: fmt.Sprintf("w%d", (w+1)%g.Wallets), Val: "1", Gas: "i", Price: "b+1"}, Op{K: "block", Dt: 5})
+				}
+				ops = append(ops, Op{K: "idx", Mut: "start"}, Op{K: "idx", Mut: "fetchfail", Ref: rng.IntN(2), Note: "results"}, Op{K: "idx", Mut: "settle"})
+			}
 			if rng.IntN(3) == 0 {
-				ops = append(ops, Op{K: "idx", Mut: "fetchfail", Ref: rng.IntN(4)})
+				ops = append(ops, Op{K: "idx", Mut: "fetchfail", Ref: rng.IntN(4), Note: pick(rng, "", "results", "results")})
 			}
 			if rng.IntN(3) == 0 {
 				ops = append(ops, Op{K: "idx", Mut: "settle"})
